@@ -93,6 +93,13 @@ def _mk_msg(rng, uid, kinds):
             for i in range(n)
         ]
         return {"cmd": "addr", "payload": codecs.addr(ents).hex()}
+    if kind == "big-inv":
+        # the standard 500-entry inventory (18 003 bytes): big enough for size-dependent code paths
+        items = [(sorted(codecs.INV_TYPES)[i % 6], hashlib.sha256(b"biginv%d/%d" % (uid, i)).digest()) for i in range(500)]
+        return {"cmd": "inv", "payload": codecs.inv(items).hex(), "big": True}
+    if kind == "big-addr":
+        ents = [(1700000000 + uid, (1).to_bytes(8, "little"), b"\x00" * 10 + b"\xff\xff" + bytes([10, uid & 255, i >> 8, i & 255]), 8333) for i in range(1000)]
+        return {"cmd": "addr", "payload": codecs.addr(ents).hex(), "big": True}
     if kind == "getaddr":
         return {"cmd": "getaddr", "payload": ""}
     if kind == "feefilter":
@@ -105,6 +112,7 @@ def _mk_msg(rng, uid, kinds):
 
 
 ALL_KINDS = ["ping", "ping", "version", "verack", "inv", "addr", "getaddr", "feefilter", "sendcmpct", "unknown"]
+BIG_KINDS = ALL_KINDS * 2 + ["big-inv", "big-addr"]
 
 
 def _segments(rng, frames_, mode, gap_mode, t0=None):
@@ -160,7 +168,7 @@ def _segments(rng, frames_, mode, gap_mode, t0=None):
 
 def plan(seed, tier="quick", index=0):
     rng = sub_rng(seed, "plan")
-    stratum = rng.choice(["small", "small", "mixed", "mixed", "mixed", "handled-only", "stop-at"])
+    stratum = rng.choice(["small", "small", "mixed", "mixed", "mixed", "handled-only", "stop-at", "churn", "big"])
     network = rng.choice(sorted(MAGICS))
     magic = MAGICS[network]
     if stratum == "small":
@@ -174,7 +182,7 @@ def plan(seed, tier="quick", index=0):
     else:
         n_peers = rng.choice([2, 2, 3, 3, 4])
         counts = [rng.choice([1, 2, 3, 4]) for _ in range(n_peers)]
-        kinds_per_peer = [ALL_KINDS] * n_peers
+        kinds_per_peer = [BIG_KINDS if stratum == "big" else ALL_KINDS] * n_peers
     uid = 1
     peers = []
     sync = rng.random() < 0.6  # all peers' data is there at once: threads really compete
@@ -247,6 +255,28 @@ def plan(seed, tier="quick", index=0):
     if stratum == "stop-at":
         horizon = max(s[0] for p in peers for s in p["segments"]) + 0.5
         sc["stop"] = {"mode": "at", "t": round(rng.random() * horizon, 4)}
+    if stratum == "churn":
+        # one peer hangs up after its last message; later a new peer is connected while the
+        # others are (possibly) still receiving
+        hang = rng.randrange(n_peers) if rng.random() < 0.3 else rng.randrange(max(1, n_peers - 1))
+        peers[hang]["hangup"] = True
+        t_hang = max([sg[0] for sg in peers[hang]["segments"]] or [0.0])
+        late_msgs = [_mk_msg(rng, 900 + k, ALL_KINDS) for k in range(rng.choice([1, 2, 3]))]
+        fr = [frames.frame(magic, m["cmd"], bytes.fromhex(m["payload"])) for m in late_msgs]
+        sc["late_peer"] = {
+            "port": 18900,
+            "msgs": late_msgs,
+            "at": round(t_hang + rng.choice([0.001, 0.5, 6.0]), 4),
+            "segments": _segments(sub_rng(seed, "late"), fr, rng.choice(["frames", "random", "header-split"]), "tight", 0.0),
+        }
+        # keep the others busy after the late peer arrives
+        for pi, pd in enumerate(peers):
+            if pi != hang and rng.random() < 0.6:
+                extra = _mk_msg(rng, 950 + pi, ALL_KINDS)
+                pd["msgs"].append(extra)
+                f2 = frames.frame(magic, extra["cmd"], bytes.fromhex(extra["payload"]))
+                last = max([sg[0] for sg in pd["segments"]] or [0.0])
+                pd["segments"].append([round(max(last, sc["late_peer"]["at"]) + rng.choice([0.0, 0.01, 0.4]), 6), f2.hex()])
     return sc
 
 
@@ -355,14 +385,17 @@ def execute(scenario, tape=None, keep_events=False):
         strategy=tuple(scenario["strategy"]),
         granularity=scenario["granularity"],
         tape=tape,
-        step_cap=STEP_CAP,
+        step_cap=STEP_CAP + 150000 * sum(1 for pd in scenario["peers"] for m in pd["msgs"] if m.get("big")),
         trace_files=(p2p.__file__,),
         probes=probes,
     )
     peers = []
     for i, pd in enumerate(scenario["peers"]):
         segs = [(t, bytes.fromhex(h)) for t, h in pd["segments"]]
-        peers.append(Peer(i, f"10.0.0.{i + 1}", pd["port"], segs))
+        peers.append(Peer(i, f"10.0.0.{i + 1}", pd["port"], segs, close_after=bool(pd.get("hangup"))))
+    late = scenario.get("late_peer")
+    if late:
+        peers.append(Peer(len(peers), "10.0.0.99", late["port"], [(t, bytes.fromhex(h)) for t, h in late["segments"]]))
     net = Net(sched, peers, faults, sub_rng(seed, "net"), short_read_rate=scenario["short_read_rate"])
     clock = SimClock(sched, scenario["epoch"])
     ctx = Ctx(sched, probes)
@@ -374,7 +407,7 @@ def execute(scenario, tape=None, keep_events=False):
     still_running = 0
     with P2PEnv(sched, net, clock, scenario["network"]):
         try:
-            node = p2p.Node(seeds=[f"{p.host}:{p.port}" for p in peers])
+            node = p2p.Node(seeds=[f"{p.host}:{p.port}" for p in peers if not (late and p is peers[-1])])
             q = getattr(node, "_msg_queue", None)
             if type(q) is deque:
                 node._msg_queue = LogDeque(q)._bind(ctx)
@@ -382,6 +415,10 @@ def execute(scenario, tape=None, keep_events=False):
             if type(r) is list:
                 node._registered_commands_to_handle = LogList(r)._bind(ctx)
             node.start()
+            if late:
+                sched.block(lambda: False, late["at"], what="driver-wait-late-peer")
+                faults.hit("peer-connected-while-others-receive")
+                node.connect_peer(peers[-1].host, peers[-1].port)
             if scenario["stop"]["mode"] == "at":
                 sched.block(lambda: False, scenario["stop"]["t"], what="driver-wait")
                 faults.hit("stop-while-in-flight")
@@ -432,7 +469,7 @@ def execute(scenario, tape=None, keep_events=False):
         handled |= set(c if isinstance(c, bytes) else str(c).encode() for c in list(reg))
     nonce_owner = {}
     sent_frames = []
-    for i, pd in enumerate(scenario["peers"]):
+    for i, pd in enumerate(scenario["peers"] + ([late] if late else [])):
         fl = []
         off = 0
         for j, m in enumerate(pd["msgs"]):
@@ -444,9 +481,14 @@ def execute(scenario, tape=None, keep_events=False):
         sent_frames.append(fl)
 
     # a receive thread that died took its unread messages with it: report it
+    hung = sum(1 for pd in scenario["peers"] if pd.get("hangup"))
     for tid in sched.order[1:]:
         st = sched.threads[tid]
         if st.died is not None:
+            if hung and isinstance(st.died, (ConnectionError, EOFError)):
+                hung -= 1  # the peer hung up: its receive thread ends with the connection error, by design
+                probes.hit("receive-thread-ended-after-peer-hangup")
+                continue
             viols.append(Violation("receive-thread-died", f"thread={tid} exc={type(st.died).__name__}", repr(st.died)))
 
     queue = _queue_entries(node)
@@ -604,7 +646,7 @@ def _diff_queue(i, qp, expq, handled, scenario, p2p):
         else:
             # does the content belong to a message of another peer?
             owner = None
-            for k, pd in enumerate(scenario["peers"]):
+            for k, pd in enumerate(scenario["peers"] + ([scenario["late_peer"]] if scenario.get("late_peer") else [])):
                 for m in pd["msgs"]:
                     if m["cmd"].encode() == cmd and p2p.parse_payload(cmd, bytes.fromhex(m["payload"])) == item[2] and k != i:
                         owner = k
@@ -622,8 +664,14 @@ def shrink_candidates(scenario, tape):
     """Yield (scenario', tape') candidates, simplest ideas first."""
     import copy
 
+    if scenario.get("late_peer"):
+        sc = copy.deepcopy(scenario)
+        del sc["late_peer"]
+        for pd in sc["peers"]:
+            pd.pop("hangup", None)
+        yield sc, tape
     # drop a whole peer (the last one, so peer numbers of the others stay)
-    if len(scenario["peers"]) > 1:
+    if len(scenario["peers"]) > 1 and not scenario.get("late_peer"):
         sc = copy.deepcopy(scenario)
         sc["peers"].pop()
         yield sc, tape
